@@ -138,6 +138,7 @@ class Frame:
     returns: list = field(default_factory=list)  # (cond, value)
     gen: MColl | None = None
     loop_bases: list = field(default_factory=list)
+    nonlocals: set = field(default_factory=set)
 
 
 class Evaluator:
@@ -159,6 +160,7 @@ class Evaluator:
         self.fluent_roots = fluent_roots or set()
         self.stages = stages or {}  # fq function name -> stage name (summarised calls)
         self.stage_hook = None  # (evaluator, stage name, bound arguments, node) -> value | None
+        self.expected_effects = {"assert_applies"}  # method calls on symbolic receivers that are part of the analysed protocol
         self.skipped: list[str] = []  # code that was not evaluated at all (hard problems)
         self.steps = 0
         self.trace = self.new_coll("list")
@@ -679,6 +681,9 @@ class Evaluator:
                 if 0 <= i[1] < len(names) and names[i[1]] in o.fields:
                     return o.fields[names[i[1]]]
         if v[0] == "mcoll" and self.heap_colls[v[1]].kind == "dict":
+            hit = self.lookup_by_binder(self.heap_colls[v[1]], i)
+            if hit is not None:
+                return hit
             items = self.heap_colls[v[1]].items
             if items and all(it[0] == "elem" and it[1][0] == "pair" and it[1][1][0] == "const" for it in items):
                 table = {it[1][1][1]: it[1][2] for it in items}
@@ -752,6 +757,21 @@ class Evaluator:
         core = snap
         while core[0] == "wrap" and core[1] in WRAPPERS:
             core = core[2]
+        # a dict built by this evaluator (or a view of it): iterate through its generators as well
+        view = core[0] if core[0] in ("items", "keys", "values") else "keys"
+        dcore = core[1] if core[0] in ("items", "keys", "values") else core
+        if dcore[0] == "coll" and dcore[1] == "dict" and all(x[0] in ("elem", "gen") and x[1][0] == "pair" for x in dcore[2]):
+            raw = it
+            while raw[0] == "wrap" and raw[1] in WRAPPERS:
+                raw = raw[2]
+            if raw[0] in ("items", "keys", "values"):
+                raw = raw[1]
+            items = self.heap_colls[raw[1]].items if raw[0] == "mcoll" else dcore[2]
+            for item in list(items):
+                pair = item[1]
+                elt = {"items": ("tuple", (pair[1], pair[2])), "keys": pair[1], "values": pair[2]}[view]
+                self.iterate_item((item[0], elt) + tuple(item[2:]), target, fr, body, node)
+            return
         if core[0] == "tuple":
             core = ("coll", "list", tuple(("elem", x) for x in core[1]))
         if core[0] == "coll" and core[1] != "dict":
@@ -805,6 +825,15 @@ class Evaluator:
 
     def bind(self, target, v, fr) -> None:
         if isinstance(target, ast.Name):
+            if target.id in fr.nonlocals:
+                e = fr.env.parent
+                while e is not None and target.id not in e.vars:
+                    e = e.parent
+                if e is not None:
+                    if any(x[0] in ("for", "if") for x in self.ctx[fr.base:]):
+                        self.problem("nonlocal variable assigned under a condition / in a loop", target)
+                    e.vars[target.id] = v
+                    return
             fr.env.vars[target.id] = v
         elif isinstance(target, (ast.Tuple, ast.List)):
             if any(isinstance(x, ast.Starred) for x in target.elts):
@@ -1073,6 +1102,9 @@ class Evaluator:
 
     def effect_call(self, recv, meth, args, kwargs, node):
         n = self.fresh()
+        if meth not in self.expected_effects:
+            # not the protocol under analysis: most likely a value whose identity the evaluator lost
+            self.problem(f"method .{meth}() called on a value that is not tracked", node, soft=True)
         elt = ("effect", self.snapshot(recv), meth, tuple(self.snapshot(a) for a in args), tuple(sorted((k, self.snapshot(v)) for k, v in kwargs.items())), self.handlers())
         self.emit(elt)
         self.origins[("effect", n)] = self.cur
@@ -1167,7 +1199,41 @@ class Evaluator:
         new = make(cur)
         m.items = [("splat", new if cond == TRUE else ("ite", cond, new, cur))]
 
+    def lookup_by_binder(self, m: MColl, key):
+        """d[k] while (re-)iterating the very loop that stored d[k] = v for the loop element k: that v.
+        Only for keys that are the loop variable itself (or the key half of an `items()` element): one entry per element."""
+        if key[0] == "index" and key[2] == ("const", 0):
+            base = key[1]
+        else:
+            base = key
+        if base[0] != "var":
+            return None
+        ctx = [e for e in self.ctx]
+        found = None
+        for it in m.items:
+            if it[0] != "gen" or it[1][0] != "pair" or it[1][1] != key:
+                continue
+            if not any(b[0] == "for" and b[1] == base for b in it[2]):
+                continue
+            if all(b in ctx for b in it[2]):
+                found = it[1][2]  # the last store wins
+        return found
+
+    def const_table(self, m: MColl):
+        """{constant key: value} of a dict that was only filled with constant keys outside loops, else None."""
+        if m.kind != "dict" or not all(it[0] == "elem" and it[1][0] == "pair" and it[1][1][0] == "const" for it in m.items):
+            return None
+        return {it[1][1][1]: it[1][2] for it in m.items}
+
     def mcoll_method(self, m: MColl, ref, name, args, kwargs, node):
+        if name == "get" and 1 <= len(args) <= 2 and args[0][0] == "const":
+            table = self.const_table(m)
+            if table is not None:
+                return table.get(args[0][1], args[1] if len(args) == 2 else NONE)
+        if name == "get" and 1 <= len(args) <= 2 and m.kind == "dict":
+            hit = self.lookup_by_binder(m, args[0])
+            if hit is not None:
+                return hit
         if name in ("append", "add") and len(args) == 1:
             self.add_item(m, args[0])
             return NONE
@@ -1353,6 +1419,10 @@ class Evaluator:
     e_YieldFrom = e_Yield
 
     def s_Pass(self, s, fr):
+        return False
+
+    def s_Nonlocal(self, s, fr):
+        fr.nonlocals.update(s.names)
         return False
 
     def s_Assert(self, s, fr):
